@@ -61,6 +61,16 @@ CLAIMED = {
         "file is a prefix of the intended bytes.",
         "Lean 4 proof (case analysis on the cut point) + exhaustive-over-cut-points correspondence",
         "DESIGN.md §5 C12"),
+    "C14": (
+        "Lean 4 theorems about the model of ccube._walk (its four branches, running row set, margin marker): an item is "
+        "delivered iff its coordinates have the right arity, are not entirely marginal, at least one row matches, and its "
+        "row ids are exactly the strictly increasing list of matching rows (soundness + completeness by induction over the "
+        "dims list, using C08's intersection theorem); no two deliveries share coordinates; the common category is never "
+        "presented. Tie: ccube(dims).interactions() vs the model as multisets on exhaustive small cubes and random ones; "
+        "oracle = the specification multiset built from the dense columns.",
+        "Trusted: Lean kernel; hand-written walk model tied by correspondence; dict order is outside the property (multiset).",
+        "Lean 4 proof (structural induction over dimensions) + exhaustive small-scope correspondence on interactions()",
+        "DESIGN.md §5 C14"),
 }
 PENDING = {}
 
